@@ -112,6 +112,13 @@ class Tree:
                         continue
                 elif f.endswith('.pyx'):
                     self.pyx[mod] = open(p, encoding='utf-8').read()
+                    py = _python_classes_of_pyx(self.pyx[mod])
+                    if py and mod not in self.modules:
+                        try:
+                            self.modules[mod] = ast.parse(py)
+                            self.sources[mod] = py
+                        except SyntaxError:
+                            pass
         for mod, tree in self.modules.items():
             imps = {}
             for st in ast.walk(tree):
@@ -184,6 +191,43 @@ class Tree:
         if imp and imp[0] in self.pyx:
             return imp[0]
         return None
+
+
+def _python_classes_of_pyx(src):
+    """The Python-level classes (`class X(Base):`, not `cdef class`) of a Cython source as Python text: the module's
+    plain imports, then each class block with its `cdef` declarations turned into assignments / dropped.  Best effort:
+    the caller discards the result if it does not parse."""
+    import re
+    lines = src.split('\n')
+    out = []
+    i = 0
+    found = False
+    while i < len(lines):
+        ln = lines[i]
+        if re.match(r'^(from\s+\S+\s+import\s|import\s)', ln) and 'cimport' not in ln:
+            out.append(ln)
+            # continuation lines of a parenthesised import
+            while ln.count('(') > ln.count(')') and i + 1 < len(lines):
+                i += 1
+                ln = lines[i]
+                out.append(ln)
+        elif re.match(r'^class\s+\w+', ln):
+            found = True
+            out.append(ln)
+            i += 1
+            while i < len(lines) and (lines[i].strip() == '' or lines[i].startswith((' ', '\t'))):
+                b = lines[i]
+                m = re.match(r'^(\s*)cdef\s+(.+?)\s+(\w+)\s*=\s*(.*)$', b)
+                if m:
+                    b = '%s%s = %s' % (m.group(1), m.group(3), m.group(4))
+                elif re.match(r'^\s*cdef\s', b):
+                    b = re.match(r'^(\s*)', b).group(1) + 'pass'
+                b = re.sub(r'<[\w\[\] ,.*]+>\s*', '', b) if '<' in b and '>' in b and 'cdef' not in b and ' < ' not in b and ' > ' not in b else b
+                out.append(b)
+                i += 1
+            continue
+        i += 1
+    return '\n'.join(out) + '\n' if found else None
 
 
 def _is_self_attr(node):
